@@ -294,6 +294,7 @@ func corpusGoGen() []*modSpec {
 		mk("go-ignored-union-field-of-a-sibling-file", "package models\n\ntype T struct {\n\tA int\n\tS Shape `gomacro:\"ignore\"`\n}\n",
 			modFile{"shapes.go", "package models\n\ntype Shape interface{ isShape() }\n\ntype Circle struct{ R int }\n\nfunc (Circle) isShape() {}\n"}),
 		mk("go-ignored-union-field", "package models\n\ntype Shape interface{ isShape() }\n\ntype Circle struct{ R int }\n\nfunc (Circle) isShape() {}\n\ntype T struct {\n\tA int\n\tS Shape `gomacro:\"ignore\"`\n\tP *Shape `gomacro:\"ignore\"`\n}\n"),
+		mk("go-select-keys-of-every-column-type", "package models\n\nimport \"time\"\n\ntype IdRoom int64\ntype Kind int\n\nconst (\n\tK0 Kind = iota\n\tK1\n)\n\ntype Label string\n\ntype Room struct {\n\tId IdRoom\n\tName string\n}\n\n// gomacro:SQL ADD UNIQUE(IdRoom, Start)\n// gomacro:SQL _SELECT KEY(Start)\n// gomacro:SQL _SELECT KEY(Kind)\n// gomacro:SQL _SELECT KEY(Label)\n// gomacro:SQL _SELECT KEY(Open, Ratio)\ntype Booking struct {\n\tId int64\n\tIdRoom IdRoom `gomacro-sql-foreign:\"Room\"`\n\tStart time.Time\n\tKind Kind\n\tLabel Label\n\tOpen bool\n\tRatio float64\n}\n"),
 		mk("go-subpackage-types", "package models\n\nimport \"example.com/org/models/sub\"\n\ntype T struct {\n\tId int64\n\tE sub.E\n\tS sub.S\n\tL []sub.S\n}\n", modFile{"sub/sub.go", "package sub\n\ntype E int\n\nconst (\n\tEA E = iota\n\tEB\n)\n\ntype S struct{ X, Y int }\n"}),
 	}
 }
